@@ -10,7 +10,20 @@
 // @oracle documented defaults (IPhreeqc.hpp): id = previous counter value, counter incremented; file names phreeqc.<id>.out/.err/.log, dump.<id>.out, selected_1.<id>.out; every file and string switch off except ErrorFileOn... (see checks); registry maps id -> this
 // @stubs Phreeqc::Phreeqc, ~Phreeqc, clean_up, init, do_initialize (events); iostream model (vf/externs.py)
 // @outside engine state behind the wrapper
+// @id C13.selected_output_file_names
+// @also C06 C09
+// @engine B
+// @entry vfh_C13_sel_file_names
+// @shared_state_watch
+// @tier Q
+// @reach names.opened
+// @funcs IPhreeqc::punch_open; IPhreeqc::sel_file_name
+// @bounds the wrapper's punch_open, which the engine calls with its own suggestion "selected_output_<n>.sel" when a SELECTED_OUTPUT n is defined; user number n in {1,2,7}, instance id in 0..3 (registry counter), the definition has a -file option or not, the caller has set a name with SetSelectedOutputFileName or not, the file switch on or off (all case split); file model
+// @oracle the file a definition writes to is: the -file name if the definition gives one, else the name the caller set, else the documented default selected_<n>.<id>.out, which embeds the instance id - so that co-existing instances never share a default file; the engine's own suggestion is never used; a file is opened only when the switch for that user number is on, and then under exactly that name
+// @stubs Phreeqc engine (events); file model
+// @outside what is written
 #include "../common/engine_stubs.inc"
+#include "SelectedOutput.h"
 #include <string.h>
 #include <stdio.h>
 
@@ -51,4 +64,32 @@ extern "C" void vfh_C13_defaults(void)
 	vf_check("default.CurrentUserNumber", ip->GetCurrentSelectedOutputUserNumber() == 1);
 	vf_check("default.no_accumulated", ip->GetAccumulatedLines().size() == 0);
 	vf_check("default.dump_info_name", ip->PhreeqcPtr->dump_info.Get_file_name() == std::string(ip->GetDumpFileName()));
+}
+
+extern "C" void vfh_C13_sel_file_names(void)
+{
+	long idx = vf_int("InstancesIndex", 0, 3);
+	new (&IPhreeqc::Instances) std::map<size_t, IPhreeqc*>();
+	IPhreeqc::InstancesIndex = (size_t) idx;
+	IPhreeqc *ip = new IPhreeqc();
+	static const int UN[3] = {1, 2, 7};
+	int n = UN[vf_int("user_number_case", 0, 2)];
+	int has_file_option = (int) vf_int("definition_has_file_option", 0, 1), caller_set = (int) vf_int("caller_set_a_name", 0, 1), on = (int) vf_int("file_switch_on", 0, 1);
+	SelectedOutput &so = ip->PhreeqcPtr->SelectedOutput_map[n];
+	so.Set_n_user(n);
+	if (has_file_option) { so.Set_file_name("from_option.sel"); so.Set_have_punch_name(true); }
+	ip->SetCurrentSelectedOutputUserNumber(n);
+	if (caller_set) ip->SetSelectedOutputFileName("from_caller.sel");
+	ip->SetSelectedOutputFileOn(on != 0);
+	char suggestion[64]; snprintf(suggestion, sizeof suggestion, "selected_output_%d.sel", n);
+	bool ok = ip->punch_open(suggestion, std::ios_base::out, n);
+	vf_reach("names.opened");
+	char want[64];
+	if (has_file_option) strcpy(want, "from_option.sel");
+	else if (caller_set) strcpy(want, "from_caller.sel");
+	else snprintf(want, sizeof want, "selected_%d.%ld.out", n, idx);
+	vf_check("names.returns_ok", ok);
+	vf_check("names.file_name_of_this_user_number", strcmp(ip->GetSelectedOutputFileName(), want) == 0);
+	vf_check("names.opened_iff_switch_on", (ip->punch_ostream != NULL) == (on != 0));
+	vf_check("names.engine_suggestion_never_used", strcmp(ip->GetSelectedOutputFileName(), suggestion) != 0);
 }
